@@ -92,11 +92,6 @@ theorem macroN_take_odd (flips : List Nat) (i : Nat) (hi : i < flips.length) :
         List.take_succ_cons, macroN_cons, ih i (by simpa using hi)]
       simp
 
-theorem xorFlips_snoc (fs : List Nat) (f : Nat) : xorFlips (fs ++ [f]) = xorFlips fs ^^^ 2 ^ f := by
-  unfold xorFlips
-  rw [List.foldl_append]
-  simp [Nat.shiftLeft_eq]
-
 theorem xorFlips_lt (n : Nat) (fs : List Nat) (h : ∀ f ∈ fs, f < n) : xorFlips fs < 2 ^ n := by
   induction fs using List.reverseRecOn with
   | nil => simp [xorFlips]; exact Nat.two_pow_pos n
@@ -136,10 +131,9 @@ theorem certN (n : Nat) (p : Array Nat) (flips : List Nat) (k : Nat) (hk : k ≤
     rw [this, xorFlips_snoc]
 
 /-- every value below 2^n is the xor of a non-empty prefix of the Gray walk -/
-theorem gray_cover (n : Nat) (flips : List Nat) (hfl : FlipFacts n flips) (hd : distinctMasksB flips = true)
+theorem gray_cover (n : Nat) (flips : List Nat) (hfl : FlipFacts n flips) (hnd : (prefixXors 0 flips).Nodup)
     (hl : flips.length = 2 ^ n) (lo : Nat) (hlo : lo < 2 ^ n) :
     ∃ i, 1 ≤ i ∧ i ≤ flips.length ∧ xorFlips (flips.take i) = lo := by
-  have hnd := prefixXors_nodup flips hd
   have hlt : ∀ v ∈ prefixXors 0 flips, v < 2 ^ n := by
     intro v hv
     obtain ⟨j, hj, rfl⟩ := List.getElem_of_mem hv
@@ -190,7 +184,7 @@ theorem split_mask (n μ : Nat) (hμ : μ < 2 ^ (n + 1)) :
         simp [hi]
 
 /-- every mask of n+1 bits is visited by the N walk, at a step k >= 1 -/
-theorem n_cover (n : Nat) (flips : List Nat) (hfl : FlipFacts n flips) (hd : distinctMasksB flips = true)
+theorem n_cover (n : Nat) (flips : List Nat) (hfl : FlipFacts n flips) (hd : (prefixXors 0 flips).Nodup)
     (hl : flips.length = 2 ^ n) (μ : Nat) (hμ : μ < 2 ^ (n + 1)) :
     ∃ k, 1 ≤ k ∧ k ≤ 2 * flips.length ∧ maskN n flips k = μ := by
   obtain ⟨hlo, hsplit⟩ := split_mask n μ hμ
@@ -273,7 +267,7 @@ theorem certNPN (n : Nat) (swaps flips : List Nat) (hs : SwapFacts n swaps) (hfl
 theorem npn_cover (n : Nat) (fact : Nat) (hfact : n.factorial = fact) (swaps flips : List Nat)
     (hs : SwapFacts n swaps) (hfl : FlipFacts n flips)
     (hd : distinctPermsB n swaps = true) (hl : swaps.length = fact)
-    (hdf : distinctMasksB flips = true) (hlf : flips.length = 2 ^ n)
+    (hdf : (prefixXors 0 flips).Nodup) (hlf : flips.length = 2 ^ n)
     (σ : Array Nat) (hσ : IsPerm n σ) (μ : Nat) (hμ : μ < 2 ^ (n + 1)) :
     ∃ j, j ≤ (macroNPN swaps flips).length ∧ certAt n (macroNPN swaps flips) j = (σ, μ) := by
   obtain ⟨j, hj, hcj⟩ := p_cover n fact hfact swaps hs hd hl σ hσ
